@@ -171,6 +171,19 @@ class Tdf:
         return self
 
     def __enter__(self) -> "Tdf":
+        try:
+            return self._open_and_parse()
+        except BaseException:
+            # `with` does not call __exit__ when __enter__ raises (not a TDF,
+            # truncated table): release the handle and the context flag here
+            self._inside_context = False
+            self._mode = "rb"
+            handler = getattr(self, "handler", None)
+            if handler is not None:
+                handler.close()
+            raise
+
+    def _open_and_parse(self) -> "Tdf":
         self._inside_context = True
         self.handler: IO[bytes] = self.file_path.open(self._mode)
 
